@@ -18,6 +18,17 @@ CLAIMS = {
              'the float in `attempt_counter > M/2` is treated as an exact real.',
         technique='contract-based deductive verification: VCs from the real AST (loop invariant + variant, quantified table invariant), z3',
         design='5/C13'),
+    'C02': dict(
+        level='proof',
+        text='For each of the 14 frame types, every metadata/data shape and both codec back ends, obligations generated from the real '
+             'ASTs are discharged for all field values in the wire-format ranges: serialize() equals the wire-format spec function '
+             '(written from the RSocket layouts, not from frame.py), parse_or_ignore(spec bytes) returns the same fields, re-encoding '
+             'the parsed frame gives the same bytes, and length-prefix + prefix + data/metadata writes equal the one-shot encoding; '
+             'helper pairs, both header parsers, the builders and TransportTCP.serialize_partial have their own contracts.',
+        note=TRUST + 'Back-end independence is shown by verifying the same contract under both import outcomes of cbitstruct; the C '
+             'code of struct/cbitstruct is an assumed model (conformance-checked, bounded).',
+        technique='contract-based deductive verification: VCs from the real AST against a wire-format spec function, bit-slice normal form + z3',
+        design='5/C02'),
 }
 
 NOT_YET = 'contracts for this property are not built yet'
